@@ -12,7 +12,7 @@ CHECKS = {}
 NA = {}
 
 
-def claim(pid, text, note, category="proof", ref="DESIGN.md 4", technique=None):
+def claim(pid, text, note, category="proof", ref="DESIGN.md 0a.4 (what is decided now) and 4 (per-property design)", technique=None):
     CHECKS[pid] = dict(category=category, text=text, note=note, ref=ref, technique=technique or TECH)
 
 
